@@ -77,5 +77,9 @@ Definition is_started (o : out) : bool := match o with OStarted _ _ _ _ => true 
 Definition is_spawn (o : out) : bool := match o with OSpawn _ _ _ => true | _ => false end.
 Definition spawn_of (n : bname) (o : out) : bool := match o with OSpawn _ m _ => bname_eqb m n | _ => false end.
 
-(* a service table that names well-known names only (what the specification has in mind) *)
-Definition wk_services (cf : cfg) : Prop := forall s, In s cf.(services) -> exists k, s.(sv_name) = Wk k.
+(* a service table that names well-known names only (what the specification has in mind), at start-up and after
+   every change of the service directories *)
+Definition wk_list (l : list service) : Prop := forall s, In s l -> exists k, s.(sv_name) = Wk k.
+Definition wk_services (cf : cfg) : Prop := wk_list cf.(services).
+Definition wk_event (e : event) : Prop := match e with ESetServices l => wk_list l | _ => True end.
+Definition wk_history (h : list event) : Prop := forall e, In e h -> wk_event e.
